@@ -12,7 +12,7 @@ use flsrc::uci::Flounder;
 use refchess::{Kind, Mv, Pos};
 use serde_json::{json, Value};
 
-pub const RULE: &str = "game histories with controlled multiplicities: from startpos or a generated valid FEN, a random prefix, then shuffle cycles (both sides move a man out and back, 0..3 full cycles, knight/king/rook/bishop/queen shuffles, with and without lost castling rights, vanished ep squares or an intervening irreversible move) and a partial cycle, so that the candidate successors of the final position P have 0, 1, 2 or >=3 earlier occurrences; 1..2 position commands on a fresh engine (only the last one's history may count). Oracle (value level, through the real command path): 'position ...' then 'go depth 1'; the score of the completed depth-1 iteration must equal max over legal m of ( n(m) >= 2 ? 0 : -Q(P·m) ), Q = reference quiescence value, n(m) = occurrences of P·m in the most recent command's history. Successors whose count differs between the rule-book identity (ep only if capturable) and the exact-field identity are not judged. Non-trivial = the case discriminates (value with the draw rule != value without it, or a successor seen exactly once keeps its real non-zero value while deciding the maximum) ; distinct by command text.";
+pub const RULE: &str = "game histories with controlled multiplicities: from startpos or a generated valid FEN, a random prefix, then shuffle cycles (both sides move a man out and back, 0..3 full cycles, knight/king/rook/bishop/queen shuffles, with and without lost castling rights, vanished ep squares or an intervening irreversible move) and a partial cycle, so that the candidate successors of the final position P have 0, 1, 2 or >=3 earlier occurrences; 1..2 position commands on a fresh engine (only the last one's history may count; in a fifth of the cases the game is given first and then its final position again as a bare 'position fen …' / 'position startpos' without moves, whose history is that single position). Oracle (value level, through the real command path): 'position ...' then 'go depth 1'; the score of the completed depth-1 iteration must equal max over legal m of ( n(m) >= 2 ? 0 : -Q(P·m) ), Q = reference quiescence value, n(m) = occurrences of P·m in the most recent command's history. Successors whose count differs between the rule-book identity (ep only if capturable) and the exact-field identity are not judged. Non-trivial = the case discriminates (value with the draw rule != value without it, or a successor seen exactly once keeps its real non-zero value while deciding the maximum) ; distinct by command text.";
 
 fn reversible(p: &Pos, m: &Mv) -> bool {
     let i = p.info(*m);
@@ -187,7 +187,11 @@ struct Cmd {
 }
 
 fn make_cmd(s: &mut Src, start: &Pos, startpos: bool, moves: &[Mv]) -> Cmd {
-    let mut text = if startpos { "position startpos".to_string() } else { format!("position fen {}", start.fen(s.below(40) as u32, 1 + s.below(80) as u32)) };
+    let mut text = if startpos { "position startpos".to_string() } else { {
+        let (hw, fw) = (s.below(40) as u32, 1 + s.below(80) as u32);
+        let (h, f) = gen::reachable_counters(s, start, hw, fw);
+        format!("position fen {}", start.fen(h, f))
+    } };
     let mut history = vec![start.clone()];
     let mut p = start.clone();
     if !moves.is_empty() {
@@ -228,7 +232,14 @@ fn check(bytes: &[u8], stats: &mut Stats) -> Verdict {
     // optionally an EARLIER position command whose history must not count: the same game but
     // with one more full cycle (more repetitions), or a different game
     let mut cmds: Vec<String> = Vec::new();
-    if s.chance(35) {
+    // variant: the game is given first, then the final position again as a bare command (FEN or
+    // startpos, no move list): its history is that one position, so nothing has occurred before
+    let bare_last = s.chance(20);
+    let judged_history: Vec<Pos> = if bare_last { vec![p.clone()] } else { last_cmd.history.clone() };
+    if bare_last {
+        cmds.push(last_cmd.text.clone());
+        stats.class("game_then_bare_position_command");
+    } else if s.chance(35) {
         let mut longer: Vec<Mv> = moves.clone();
         // a different, repetition-rich history reaching positions that overlap with this game
         let extra = build_history(&mut s, &start).map(|x| x.0).unwrap_or_default();
@@ -239,7 +250,34 @@ fn check(bytes: &[u8], stats: &mut Stats) -> Verdict {
         cmds.push(earlier.text);
         stats.class("with_earlier_position_command");
     }
-    cmds.push(last_cmd.text.clone());
+    if bare_last {
+        if p == Pos::startpos() && s.bool() {
+            cmds.push("position startpos".to_string());
+        } else {
+            let (hw, fw) = (s.below(40) as u32, 1 + s.below(80) as u32);
+            let (h, f) = gen::reachable_counters(&mut s, &p, hw, fw);
+            cmds.push(format!("position fen {}", p.fen(h, f)));
+        }
+    } else {
+        cmds.push(last_cmd.text.clone());
+    }
+    let cmds_v = cmds;
+    let old = if bare_last { Some(last_cmd.history.as_slice()) } else { None };
+    judge(&cmds_v, &judged_history, old, stats)
+}
+
+/// The oracle: `cmds` go to a fresh engine followed by `go depth 1`; `judged_history` is the game
+/// of the LAST command (its final element is the position searched); `old_history`, if any, is a
+/// game given by an earlier command that must not count (used only to classify the case).
+pub fn judge(cmds: &[String], judged_history: &[Pos], old_history: Option<&[Pos]>, stats: &mut Stats) -> Verdict {
+    let cmds: Vec<String> = cmds.to_vec();
+    let p = judged_history.last().unwrap().clone();
+    let legal = p.legal_moves();
+    if legal.is_empty() {
+        stats.exclude("terminal final position");
+        return Ok(());
+    }
+    let bare_last = old_history.is_some();
     // expected value
     let mut rs = RefSearch::new(150_000);
     let mut with_rule = crate::refsearch::LOST;
@@ -250,8 +288,8 @@ fn check(bytes: &[u8], stats: &mut Stats) -> Verdict {
     let mut ambiguous = false;
     for m in &legal {
         let succ = p.make(*m);
-        let n_exact = count_exact(&last_cmd.history, &succ);
-        let n_rule = count_rule(&last_cmd.history, &succ);
+        let n_exact = count_exact(judged_history, &succ);
+        let n_rule = count_rule(judged_history, &succ);
         if (n_exact >= 2) != (n_rule >= 2) {
             ambiguous = true;
         }
@@ -316,7 +354,7 @@ fn check(bytes: &[u8], stats: &mut Stats) -> Verdict {
     let got = class(score);
     let discriminating = with_rule != without_rule;
     if got != with_rule {
-        let query_all_false = legal.iter().zip(q_flags.iter()).all(|(m, f)| !(count_rule(&last_cmd.history, &p.make(*m)) >= 2 && *f));
+        let query_all_false = legal.iter().zip(q_flags.iter()).all(|(m, f)| !(count_rule(judged_history, &p.make(*m)) >= 2 && *f));
         let sig = if got == without_rule && any_draw && query_all_false && hist_len == 0 {
             "history-not-recorded"
         } else if got == without_rule && any_draw {
@@ -334,9 +372,9 @@ fn check(bytes: &[u8], stats: &mut Stats) -> Verdict {
     if any_draw {
         stats.class("has_successor_seen_twice_or_more");
     }
-    if last_cmd.history.len() > 101 {
+    if judged_history.len() > 101 {
         stats.class("history_longer_than_100_plies");
-        let oldest = legal.iter().filter_map(|m| { let sx = p.make(*m); last_cmd.history.iter().rposition(|h| *h == sx).map(|i| last_cmd.history.len() - i) }).max();
+        let oldest = legal.iter().filter_map(|m| { let sx = p.make(*m); judged_history.iter().rposition(|h| *h == sx).map(|i| judged_history.len() - i) }).max();
         if let Some(o) = oldest { if o > 100 { stats.class("repeated_successor_last_seen_more_than_100_plies_ago"); } }
     }
     if discriminating {
@@ -345,7 +383,20 @@ fn check(bytes: &[u8], stats: &mut Stats) -> Verdict {
     if once_decides {
         stats.class("has_successor_seen_once_with_nonzero_value");
     }
-    if discriminating || (once_decides && with_rule != 0) {
+    if bare_last {
+        // non-trivial when the abandoned history would have changed the value
+        let mut with_old = crate::refsearch::LOST;
+        for m in &legal {
+            let succ = p.make(*m);
+            let q = rs.q(&succ).map(neg).unwrap_or(0);
+            let v = if count_rule(old_history.unwrap_or(judged_history), &succ) >= 2 { 0 } else { q };
+            with_old = with_old.max(v);
+        }
+        if with_old != with_rule {
+            stats.class("bare_command_discriminates_(old_history_would_change_the_value)");
+            stats.nontrivial(&cmds);
+        }
+    } else if discriminating || (once_decides && with_rule != 0) {
         stats.nontrivial(&cmds);
     }
     stats.sample(|| json!({"commands": cmds.iter().map(|c| if c.len() > 300 { format!("{}…", &c[..300]) } else { c.clone() }).collect::<Vec<_>>(), "expected": show(with_rule), "without_rule": show(without_rule), "engine": score}));
@@ -365,6 +416,14 @@ pub fn run(tier: Tier, seed: u64, known: &Known) -> PropRun {
     run
 }
 
-pub fn replay(_part: &str, bytes: &[u8], _case: &Value, stats: &mut Stats) -> Verdict {
+pub fn replay(_part: &str, bytes: &[u8], case: &Value, stats: &mut Stats) -> Verdict {
+    if let Some(cmds) = case.get("commands").and_then(|x| x.as_array()) {
+        let cmds: Vec<String> = cmds.iter().filter_map(|c| c.as_str().map(|s| s.to_string())).collect();
+        if let Some(last) = cmds.last() {
+            if let Ok(game) = crate::script::ref_position(last) {
+                return judge(&cmds, &game, None, stats);
+            }
+        }
+    }
     check(bytes, stats)
 }
